@@ -396,6 +396,9 @@ def shards(tier):
              'len': 3 if tier == 'quick' else 4} for i in range(8 if tier == 'quick' else 2)]
     if tier == 'thorough':
         out += [{'name': 'all-offsets-%d' % i, 'kind': 'offsets', 'part': i, 'parts': 4} for i in range(4)]
+    else:
+        # (quick tier: every offset of the one payload that holds non-ASCII text, where a cut can fall inside a character)
+        out += [{'name': 'all-offsets-nonascii-%d' % i, 'kind': 'offsets', 'part': i, 'parts': 2, 'payloads': [3]} for i in range(2)]
     return out
 
 
@@ -421,14 +424,17 @@ def run_shard(spec, seed, col, tier):
     else:
         # every byte offset of the last record, for each payload, with and without an earlier rotation
         n = 0
-        for pi in range(4):
+        for pi in spec.get('payloads', range(4)):
             for pre in ([], [['ev', 0, 0], ['ev', 0, 2]]):
                 for k in range(spec['part'], 400, spec['parts']):
-                    case = {'max_size': 150, 'write_keepalive': False, 'ops': pre + [['torn', 0, pi, k], ['ev', 0, 1], ['restart'], ['ev', 7, 4]]}
-                    res, nt, info = run_case(case)
-                    col.case(case, nt, labels=['all-offsets'])
-                    for sig, detail in res:
-                        col.fail(sig, case, detail)
+                    # (threshold 150: a record longer than that is followed by a rotation and cannot be torn any more, so the
+                    # large threshold is run as well)
+                    for ms in (150, 10 ** 9):
+                        case = {'max_size': ms, 'write_keepalive': False, 'ops': pre + [['torn', 0, pi, k], ['ev', 0, 1], ['restart'], ['ev', 7, 4]]}
+                        res, nt, info = run_case(case)
+                        col.case(case, nt, labels=['all-offsets', 'torn:%d' % min(info['torn'], 2)])
+                        for sig, detail in res:
+                            col.fail(sig, case, detail)
 
 
 def replay(case):
